@@ -55,3 +55,10 @@ func (r *TaskRunner) VerifKinds() []string {
 	}
 	return ks
 }
+
+// VerifBackend returns the backend the state checkpoints to.
+func (s *State) VerifBackend() Backend { return s.backend }
+
+// VerifSetBackend replaces the backend (to record what reaches the disk).
+// Must be called with the state lock held.
+func (s *State) VerifSetBackend(b Backend) { s.backend = b }
